@@ -48,6 +48,7 @@ class FakeStdout:
         self._waiter: Optional[asyncio.Future] = None
         self.closed = False
         self.delivered = 0
+        self.eof_seen = False
 
     def feed(self, data: bytes):
         self._chunks.append(data)
@@ -68,6 +69,8 @@ class FakeStdout:
                 self.delivered += 1
                 return self._chunks.popleft()
             if self._eof or self.closed:
+                if self._eof:
+                    self.eof_seen = True  # the reader got to the end of the pipe (the real descriptor is closed then)
                 raise anyio.EndOfStream
             self._waiter = asyncio.get_running_loop().create_future()
             try:
